@@ -423,9 +423,15 @@ def _execute(program, stats, hist):
                 raise Violation(ID, "schedule_disagreement", "compute_pl", {"vectorised": plv, "stepwise": pls, "worst": worst}, seq)
             crit = hv.criterion
             try:
+                if float(plv.detach().abs().max()) > 50.0:
+                    # exponential criteria turn an absolute difference d in the P&L into a relative one of a*d in the loss:
+                    # with P&L in the hundreds and beyond the loss comparison has no meaningful tolerance (the P&L one above has)
+                    raise RuntimeError("loss comparison skipped at this P&L magnitude")
                 with torch.no_grad():
                     lv = crit(plv)
                     ls = crit(pls)
+                if float(lv.detach().abs().max()) > 1e3:
+                    raise RuntimeError("loss comparison skipped at this loss magnitude")
                 ok, worst = _close(lv, ls, rtol * 10, atol * pl_scale * 10)
                 stats.probe("loss_compared")
                 if not ok:
